@@ -77,6 +77,7 @@ Print Assumptions C10_id_generator.
 Example C10_example_clock_behind :
   option_map (fun s => map w_id (wire_out (elog s))) (run init ex_clock_behind) = Some [52; 48; 44; 40].
 Proof. vm_compute. reflexivity. Qed.
+Print Assumptions C10_example_clock_behind.
 
 (* "content-related" is the LOW BIT of the seq_no's 32-bit pattern: the model tests [Z.odd seq] ([settle], [unacked_aux])
    and it does not matter whether a seq_no with the top bit set (0x80000001, 0xffffffff) is read as the signed Go
@@ -103,6 +104,7 @@ Print Assumptions C10_parity_is_low_bit_of_the_pattern.
    two acknowledgements on the wire (ids 40 44 48 80, seq_nos 1 3 4 6) ending at RRead. *)
 Example C10_example : exists s, run init ex_labels = Some s /\ rx s = RRead /\ length (wire_out (elog s)) = 4%nat.
 Proof. eexists. split; [vm_compute; reflexivity|split; reflexivity]. Qed.
+Print Assumptions C10_example.
 
 (* ---- the same rules over the extended system of Client/Live.v --------------------------------------
    [run2 (init2 c) ls = Some s]: histories that also contain salt rotation (bad_server_salt, retries),
@@ -169,8 +171,10 @@ Example C10_seq_parity_is_the_low_bit :
   map Z.odd [-2147483647; -1; 2147483647; -2147483648; -2; 2147483649; 4294967295; 2147483648; 4294967294]
   = [true; true; true; false; false; true; true; false; false].
 Proof. exact LiveExamples.seq_parity_is_the_low_bit. Qed.
+Print Assumptions C10_seq_parity_is_the_low_bit.
 
 Example C10_example_wide_seq : exists s, run2 (init2 LiveExamples.cfg_handler) LiveExamples.ex_wide_seq = Some s /\
   rx (base s) = RRead /\ unacked (elog (base s)) = [] /\
   map (fun w => w_kind w) (wire_out (elog (base s))) = [WAck 51; WAck 47; WAck 43; WAck 11; WAck 7; WAck 3].
 Proof. eexists. split; [vm_compute; reflexivity|repeat split; reflexivity]. Qed.
+Print Assumptions C10_example_wide_seq.
